@@ -521,11 +521,12 @@ def replay(rec):
         cf = gen.closed_form(df, covs, wcol)
         data['_nontrivial'] = True
         with common.quiet():
-            {'IPTW': run_iptw, 'TimeFixedGFormula': run_gformula, 'AIPTW': run_aiptw}.get(c['estimator'], None) and \
-                {'IPTW': run_iptw, 'TimeFixedGFormula': run_gformula, 'AIPTW': run_aiptw}[c['estimator']](
-                    chk, None, df, covs, c['outcome'], wcol, cf, 0, data)
+            fn = {'IPTW': run_iptw, 'TimeFixedGFormula': run_gformula, 'AIPTW': run_aiptw}.get(c['estimator'])
+            if fn is not None:
+                guarded(chk, c['estimator'], c, fn, chk, None, df, covs, c['outcome'], wcol, cf, 0, data)
             if c['estimator'] == 'TMLE':
-                run_tmle(chk, None, df, covs, c['outcome'], cf, 0, data, c.get('continuous_bound', 0.0005))
+                guarded(chk, 'TMLE', c, run_tmle, chk, None, df, covs, c['outcome'], cf, 0, data,
+                        c.get('continuous_bound', 0.0005))
         n = len(chk.d_fail)
     print('failures reproduced:', n)
     return 1 if n else 0
